@@ -11,6 +11,7 @@ the code) - a diagnostic, never a VIOLATION by itself (DESIGN.md 2.1).
 
 usage: conform_send.py <num behaviours> <seed> <outdir>   -> writes <outdir>/conform_send.json"""
 import sys, os, json, subprocess, re, shutil
+TLCW = os.path.join(os.path.dirname(os.path.dirname(os.path.abspath(__file__))), "bin", "tlcw")  # tlc with a large main-thread stack
 
 VERIF = os.path.dirname(os.path.dirname(os.path.abspath(__file__)))
 SPEC = os.path.join(VERIF, "spec")
@@ -22,7 +23,7 @@ def tlc_behaviours(num, seed, outdir):
     md = os.path.join(outdir, "tlcmeta")
     os.makedirs(md, exist_ok=True)
     env = dict(os.environ, JAVA_TOOL_OPTIONS="-Xss1g -Xmx4g -DTLA-Library=%s" % SPEC)
-    cmd = ["timeout", "600", "tlc", "-workers", "1", "-metadir", md, "-cleanup", "-noGenerateSpecTE", "-config", "MC_Send_export.cfg",
+    cmd = ["timeout", "600", TLCW, "-workers", "1", "-metadir", md, "-cleanup", "-noGenerateSpecTE", "-config", "MC_Send_export.cfg",
            "MC_Send.tla", "-simulate", "num=%d" % num, "-depth", "60", "-seed", str(seed)]
     r = subprocess.run(cmd, cwd=os.path.join(SPEC, "mc"), env=env, stdout=subprocess.PIPE, stderr=subprocess.STDOUT, text=True)
     shutil.rmtree(md, ignore_errors=True)
